@@ -85,6 +85,11 @@ func Run(ctx *core.Ctx) {
 		"harness/c10/cases.go unparser; harness/c11/translate.go (identity/reversing translation of an extracted msgid; cross-checked against SoyPO.POTranslate on every case)",
 		"js/c11_driver.js (node vm driver, plural rules ja/en/ru/cs)",
 		"TLC, CommunityModules Json, robfig/gettext/po")
+	// many TLC processes run side by side: keep each JVM's heap small (the JVM
+	// would otherwise grow to a quarter of the machine's memory each)
+	if os.Getenv("_JAVA_OPTIONS") == "" {
+		os.Setenv("_JAVA_OPTIONS", "-Xmx4g")
+	}
 	if ctx.ReplayPath != "" {
 		replay(ctx)
 		return
